@@ -14,16 +14,18 @@
    compares what tlparser.ParseSchema and tlgen make of it with the definitions and with Xlate. *)
 EXTENDS Integers, Sequences, FiniteSets, TLC, Json
 
-Types == <<"Foo", "ns.Item", "Baz", "MsgInfo", "Color">>
+Types == <<"Foo", "ns.Item", "Baz", "MsgInfo", "Color", "Holder">>
 CtorPool == ("Foo" :> <<"foo", "fooEmpty", "fooBig">>) @@ ("ns.Item" :> <<"ns.item", "ns.itemOne", "ns.itemTwo">>)
             @@ ("Baz" :> <<"bazSingle", "bazOther">>)
             \* a constructor that equals its type only after the name mangling (snake case), as bad_msg_notification = BadMsgNotification
             @@ ("MsgInfo" :> <<"msg_info", "msgInfoNew">>) @@ ("Color" :> <<"colorRed", "colorGreen", "colorBlue">>)
-FuncPool == <<"getFoo", "ns.getItems", "checkBaz", "listNumbers", "ns.setColor", "doNothing">>
+            \* names that begin like the built-in types whose declarations (`int ? = Int;`) the parser skips
+            @@ ("Holder" :> <<"stringHolder", "intHolder", "longHolder">>)
+FuncPool == <<"getFoo", "ns.getItems", "checkBaz", "listNumbers", "ns.setColor", "doNothing", "bytesToFoo", "doubleCheck">>
 \* names that need mangling (snake case, acronyms), a Go keyword, the name of a package the generated
 \* code uses, identifiers of the generated method body
 ParamNames == <<"id", "user_id", "type", "api_url", "errors", "ok", "title", "c", "big_number", "data">>
-Bases == {"int", "long", "double", "string", "bytes", "Bool", "Foo", "ns.Item", "Baz", "MsgInfo", "Color"}
+Bases == {"int", "long", "double", "string", "bytes", "Bool", "Foo", "ns.Item", "Baz", "MsgInfo", "Color", "Holder"}
 CONSTANT BitsU          \* the flag bits of this run, a subset of 0..31 (the check rotates it over all bits)
 ASSUME BitsU \subseteq 0..31
 MaxParams == 7      \* tlgen passes up to 5 parameters positionally, more through a params struct
